@@ -25,6 +25,11 @@ impl<'a, T: VecData<T> + 'a, C: Comparator<T> + fmt::Debug> VecOperator<'a> for 
         let mut indices = scratchpad.get_mut(self.indices);
         let mut keys = scratchpad.get_mut(self.keys);
 
+        // LIMIT 0: nothing to select (and no heap root to compare with)
+        if self.n == 0 {
+            return Ok(());
+        }
+
         assert_eq!(indices.len(), keys.len());
         if indices.len() < indices.capacity() {
             let count = cmp::min(indices.capacity() - indices.len(), input.len());
